@@ -197,6 +197,9 @@ func (m *mux) ensureContext(r *http.Request) *chi.Context {
 	if path == "" {
 		path = r.URL.Path
 	}
+	if path == "" {
+		path = "/" // as chi routes a URL without a path
+	}
 	scratch := chi.NewRouteContext()
 	if !m.Router.Match(scratch, r.Method, path) {
 		return nil // route not handled by chi
